@@ -14,6 +14,7 @@
    Each fixpoint theorem has a sibling [..._strong] that determines BOTH outcome lists (items with offsets, then the clean end
    ONone: both reads are error-free), where the original compares them only through [out_tag]. *)
 From Ebml Require Import Base Tools Spec Writer Reader Pure Encode Proofs.Tactics Proofs.WriterProofs Proofs.PureProofs Proofs.RoundTrip Proofs.RoundTripKnown Proofs.WriteEnc Proofs.WriteEncG Proofs.Fixpoint Proofs.FixpointKnown Proofs.Partial Proofs.CutExists Proofs.Snapshots Proofs.FixpointCut Proofs.BufferSimErr Proofs.AuditRoundTrip.
+From Ebml Require Import Proofs.DStart.
 
 (* [canon f]: the same tags in the writer's default encoding; [sized c t]: its sizes stay below 2^56-1 and the reader's limit.
    The writer accepts every tag the reader emitted (in particular everything the reader accepts as hierarchy-valid), emits the
@@ -265,6 +266,22 @@ Theorem C02_fixpoint_known_partial_strong : forall c f, strict c -> c_buffered c
   map out_tag second = map out_tag first.
 Proof. exact read_write_read_known_strong. Qed.
 
+(* the same without start hypothesis, for a consistent specification ([consistent (c_sp c)], Proofs/DStart.v: every declared
+   path that ends in an identifier is that master's declared path followed by it - true of every specification the derive macro
+   generates, C01_derive_consistent).  Hypotheses: [strict c], [c_buffered c = []], [c_emit_eof c = true], [consistent (c_sp c)],
+   [Forall (kconf c []) f], [Forall (sized c) (map canon f)]. *)
+Theorem C02_fixpoint_known_consistent_partial_strong : forall c f, strict c -> c_buffered c = [] -> c_emit_eof c = true ->
+  consistent (c_sp c) -> Forall (kconf c []) f -> Forall (sized c) (map canon f) ->
+  let first := p_run c (enc_forest f) [RAll] in
+  let written := run_writer (c_sp c) (map default_write (run_tags first)) [] in
+  let second := p_run c (snd written) [RAll] in
+  Forall (fun r => fst r = WOk) (fst written) /\
+  snd written = enc_forest (map canon f) /\
+  first = items_forest 0 f ++ [ONone] /\
+  second = items_forest 0 (map canon f) ++ [ONone] /\
+  map out_tag second = map out_tag first.
+Proof. exact read_write_read_known_consistent_strong. Qed.
+
 (* the canonical re-encoding is idempotent: payloads and size widths depend on the values and their lengths only *)
 Theorem C02_canon_idempotent : forall t, canon (canon t) = canon t.
 Proof. exact canon_idem. Qed.
@@ -284,6 +301,17 @@ Theorem C02_rewrite_stable : forall c f, strict c -> c_buffered c = [] -> c_emit
   let written2 := run_writer (c_sp c) (map default_write (run_tags second)) [] in
   Forall (fun r => fst r = WOk) (fst written2) /\ snd written2 = snd written.
 Proof. exact rewrite_is_stable. Qed.
+
+(* ... for the second class without start hypothesis, consistent specification: [strict c], [c_buffered c = []],
+   [c_emit_eof c = true], [consistent (c_sp c)], [Forall (kconf c []) f], [Forall (sized c) (map canon f)] *)
+Theorem C02_rewrite_stable_known_consistent : forall c f, strict c -> c_buffered c = [] -> c_emit_eof c = true ->
+  consistent (c_sp c) -> Forall (kconf c []) f -> Forall (sized c) (map canon f) ->
+  let first := p_run c (enc_forest f) [RAll] in
+  let written := run_writer (c_sp c) (map default_write (run_tags first)) [] in
+  let second := p_run c (snd written) [RAll] in
+  let written2 := run_writer (c_sp c) (map default_write (run_tags second)) [] in
+  Forall (fun r => fst r = WOk) (fst written2) /\ snd written2 = snd written.
+Proof. exact rewrite_is_stable_consistent. Qed.
 
 (* Root = 129; Void = 236, a global element (1-): anywhere at depth >= 1; Rec = 131, a recursive master Root/(-): anywhere
    below Root, itself included; Val = 16641, Root/(-)/Rec *)
